@@ -1,6 +1,7 @@
 package drivers
 
 import (
+	"encoding/asn1"
 	"crypto"
 	"crypto/x509"
 	"crypto/x509/pkix"
@@ -143,6 +144,17 @@ func c04Signers() []c04Signer {
 			ca := c04CA(kind)
 			oc := world.Issue(nil, world.CertOpt{CN: "other trusted CA " + kind, IsCA: true, KeyKind: kind, KeyIdx: 4, Serial: big.NewInt(37)})
 			return ca, []*world.Ident{ca, p.Root}, []*x509.Certificate{oc.Cert}, oc
+		}},
+		{"trusted-signer-whose-name-renders-like-the-issuers", true, func(kind string) (*world.Ident, []*world.Ident, []*x509.Certificate, *world.Ident) {
+			// a configured trusted signer whose distinguished name is another one on the wire (an extra leading CN) but
+			// renders like the issuing CA's under pkix.Name: entitled only where the CRL's key identifier names it
+			ca := c04CA(kind)
+			var seq pkix.RDNSequence
+			asn1.Unmarshal(ca.Cert.RawSubject, &seq)
+			like := append(pkix.RDNSequence{{{Type: []int{2, 5, 4, 3}, Value: "partner CRL signer"}}}, seq...)
+			raw, _ := asn1.Marshal(like)
+			ts := world.Issue(nil, world.CertOpt{CN: "lookalike " + kind, RawSubject: raw, IsCA: true, KeyKind: kind, KeyIdx: 4, Serial: big.NewInt(38)})
+			return ca, []*world.Ident{ca, p.Root}, []*x509.Certificate{ts.Cert}, ts
 		}},
 		{"stranger-configured-nowhere-in-chain-only", false, func(kind string) (*world.Ident, []*world.Ident, []*x509.Certificate, *world.Ident) {
 			// another CA of the same chain (the root) signs the issuing CA's CRL: not the issuer named by the CRL
